@@ -3,7 +3,7 @@ from ..extract import AnalysisBroken
 from ..facts import CALLS, CTORS, fmt_term
 from ..flow import substitute, mentions
 from ..report import ok, bad
-from ..rules_sib import P, symmetric_keys, lexicographic_less, per_char_map, returns, comparisons_between_params
+from ..rules_sib import P, symmetric_keys, lexicographic_less, per_char_map, returns, comparisons_between_params, enclosing_if_cond
 
 SU = "OP2Utility::StringUtility::"
 XF = "OP2Utility::XFile::"
@@ -141,8 +141,67 @@ def paths_are_equal(F):
     return out
 
 
+def is_equal_algorithm_form(F, fn):
+    """`if (a.size() != b.size()) return false; return std::equal(a.begin(), a.end(), b.begin(), [](c1, c2) { return K(c1) == K(c2); })`:
+    the same obligations as the index-loop form, or None when the function is not written this way."""
+    a, b = P(fn, 0), P(fn, 1)
+    eq = [nd for nd in fn.nodes if nd["k"] in CALLS and (nd.get("fq") or "") == "std::equal" and len(nd.get("args", [])) == 4]
+    if len(eq) != 1 or any(nd["k"] in ("ForStmt", "WhileStmt", "CXXForRangeStmt", "DoStmt") for nd in fn.nodes):
+        return None
+    out = []
+    args = [fn.term(x) for x in eq[0]["args"]]
+    def it(t, which, v):
+        return t[0] == "call" and t[1].split("::")[-1] in (which, "c" + which) and t[2] == v
+    whole = (it(args[0], "begin", a) and it(args[1], "end", a) and it(args[2], "begin", b)) or (it(args[0], "begin", b) and it(args[1], "end", b) and it(args[2], "begin", a))
+    lam = F.functions.get(args[3][1]) if args[3][0] == "lambda" else None
+    inst = SU + "IsEqual#cmp:elements"
+    req = "corresponding characters are compared for equality through tolower on both sides"
+    good = False
+    detail = "predicate not recognised"
+    if lam is not None and len(lam.params) == 2:
+        rets = [x for x in lam.nodes if x["k"] == "ReturnStmt" and "value" in x]
+        p1, p2 = ("var", lam.params[0]["n"], lam.params[0]["d"]), ("var", lam.params[1]["n"], lam.params[1]["d"])
+        if len(rets) == 1:
+            rt = lam.term(rets[0]["value"])
+            detail = fmt_term(rt)
+            if rt[0] == "op" and rt[1] == "==":
+                l, r = rt[2], rt[3]
+                if mentions_(l, p2):
+                    l, r = r, l
+                good = l[0] == "call" and l[1].split("::")[-1] == "tolower" and l[3] == (p1,) and r == ("call", l[1], l[2], (p2,))
+    if good and whole:
+        out.append(ok("R-SIB", inst, fn.loc(eq[0]["id"]), fn.qn, req, "std::equal over the whole of one string against the other: " + detail))
+    else:
+        out.append(bad("R-SIB", inst, fn.loc(eq[0]["id"]), fn.qn, req, detail if whole else "std::equal does not run over the whole of one string against the start of the other"))
+    # lengths: a differing length returns false before the element comparison (std::equal reads n characters of the second string)
+    rets = returns(fn)
+    inst = SU + "IsEqual#shape"
+    req = "equal length and element-wise equal keys: a differing length returns false, otherwise the verdict is that of the element comparison"
+    early = [r for r in rets if fn.strip(r["value"]) != eq[0]["id"]]
+    final = [r for r in rets if fn.strip(r["value"]) == eq[0]["id"]]
+    ok_len = False
+    if len(early) == 1 and len(final) == 1 and early[0]["id"] < final[0]["id"] and fn.n(fn.strip(early[0]["value"])).get("v") == 0:
+        cid, in_then = enclosing_if_cond(fn, early[0]["id"])
+        if cid is not None and in_then:
+            ct = fn.term(cid)
+            ok_len = ct in (("op", "!=", ("size", a), ("size", b)), ("op", "!=", ("size", b), ("size", a)))
+    if ok_len:
+        out.append(ok("R-SIB", inst, fn.loc(fn.body), fn.qn, req, "size() != size() -> false; return std::equal(...)"))
+    else:
+        out.append(bad("R-SIB", inst, fn.loc(fn.body), fn.qn, req, "the length test before std::equal is not `if (a.size() != b.size()) return false`"))
+    return out
+
+
+def mentions_(t, v):
+    from ..flow import mentions
+    return mentions(t, v)
+
+
 def is_equal_shape(F):
     fn = F.fn(SU + "IsEqual", nparams=2)
+    alg = is_equal_algorithm_form(F, fn)
+    if alg is not None:
+        return alg
     out = symmetric_keys(fn, SU + "IsEqual", expect_key="tolower")
     a, b = P(fn, 0), P(fn, 1)
     cm = comparisons_between_params(fn)
@@ -377,9 +436,20 @@ def debruijn(F):
                         table = [x[1] for x in t[1]]
                         tvar = ("var", d["n"], d["d"])
     rets = returns(fn)
-    if table is None or len(rets) != 1:
+    if len(rets) != 1:
         raise AnalysisBroken("Log2OfPowerOf2: table / return not recognised")
-    t = fn.term(rets[0]["value"])
+    t = fn.xterm(rets[0]["value"])
+    if table is None and t[0] == "idx" and t[1][0] == "global":
+        # the table as a namespace-scope constant (built-in array or std::array): its evaluated initialiser
+        gv = F.vars.get(t[1][1]) or {}
+        val = gv.get("value")
+        if isinstance(val, dict) and len(val) == 1:
+            val = list(val.values())[0]
+        if gv.get("const") and isinstance(val, list) and len(val) == 32 and all(isinstance(x, int) for x in val):
+            table = val
+            tvar = t[1]
+    if table is None:
+        raise AnalysisBroken("Log2OfPowerOf2: table / return not recognised")
     v = P(fn, 0)
     inst = "OP2Utility::Log2OfPowerOf2#debruijn"
     req = "table[((1<<i) * K mod 2^32) >> 27] == i for all 32 powers"
@@ -421,7 +491,7 @@ def is_power_of_2(F):
 
 
 def convert_to_upper(F):
-    out = per_char_map(F.fn(SU + "ConvertToUpperInPlace", nparams=1), SU + "ConvertToUpperInPlace", "toupper")
+    out = per_char_map(F.fn(SU + "ConvertToUpperInPlace", nparams=1), SU + "ConvertToUpperInPlace", "toupper", F=F)
     fn = F.fn(SU + "ConvertToUpper", nparams=1)
     v = P(fn, 0)
     calls = [nd for nd in fn.nodes if nd["k"] in CALLS and (nd.get("fq") or "").endswith("ConvertToUpperInPlace")]
